@@ -43,6 +43,16 @@ PROPS = {
                  'steered schedules on the real AccessBarrier, each trace validated against the model and ending in a quiescent state',
                  'each sync/atomic operation is one sequentially consistent step; scheduling inside a segment between two yield points is not explored'],
     ),
+    'C08': dict(
+        modules=['NitroVerif.Props.C08', 'NitroVerif.Props.C06Handoff'],
+        iruns=[('refcount', gens.gen_refcount, 200, 8000)],
+        level='proof',
+        level_text='C08_zero_is_final, C08_open_iff, C08_frontier_sound and C08_collector_progress are proved in Lean for every schedule, any number of threads and snapshots, on a small-step model with one program counter per yield point of Snapshot.Open/Close, GC, collectDead; C08_unfixed_counterexample is the kernel-checked witness for the original test-then-add Open; tied to nitro.go by regenerated tests/skeletons and steered schedules on the real code validated step by step',
+        trusted=['Lean 4 kernel', 'tools/gofacts translation of Open/Close/GC/collectDead tests and skeletons',
+                 'steered schedules on real snapshots (verif yield points), every trace validated against the model',
+                 'references are pooled per snapshot (any thread may close a held reference), which over-approximates every ownership discipline',
+                 'the live and dead snapshot lists (skiplists) are modelled as ascending lists; their own lock-free steps are not yield points'],
+    ),
 }
 
 
